@@ -16,7 +16,7 @@ Fixpoint post {A} (Q : site -> Prop) (R : A -> Prop) (p : prog A) : Prop :=
   | Do s c k => forall r, post Q R (k r)
   | Par s bs k =>
       (fix go (bs : list (host * prog resp)) : Prop :=
-         match bs with [] => True | (_, b) :: r => panics_in Q b /\ go r end) bs
+         match bs with [] => True | (_, b) :: r => post Q (fun _ => True) b /\ go r end) bs
       /\ forall rs, Permutation (map fst bs) (map fst rs) ->
                     (forall h r, In (h, r) rs -> exists b, In (h, b) bs /\ can_ret b r) ->
                     post Q R (k rs)
@@ -68,26 +68,19 @@ Proof.
   apply (G bs [] [] []); [reflexivity|reflexivity|intros h r []|exact H].
 Qed.
 
-Lemma go_panics_in_In Q (bs : list (host * prog resp)) :
-  (fix go (bs : list (host * prog resp)) : Prop :=
-     match bs with [] => True | (_, b) :: r => panics_in Q b /\ go r end) bs ->
-  forall h b, In (h, b) bs -> panics_in Q b.
-Proof.
-  induction bs as [|[h0 b0] r IH]; intros Hgo h b Hin; [destruct Hin|].
-  destruct Hgo as [H1 H2]. destruct Hin as [E|Hin]; [inversion E; subst; exact H1|exact (IH H2 _ _ Hin)].
-Qed.
-
-Theorem post_sound {A} (Q : site -> Prop) (R : A -> Prop) (p : prog A) :
+Fixpoint post_sound {A} (Q : site -> Prop) (R : A -> Prop) (p : prog A) {struct p} :
   post Q R p -> forall tr o, runs p tr o -> match o with Done a => R a | Panicked s => Q s end.
 Proof.
-  induction p as [a0|s|s c k IH|s bs k IH] using prog_ind_k; cbn [post]; intros H tr o Hr.
+  destruct p as [a0|s|s c k|s bs k]; cbn [post]; intros H tr o Hr.
   - cbn in Hr. destruct Hr as [_ ->]. exact H.
   - cbn in Hr. destruct Hr as [_ ->]. exact H.
-  - cbn [runs] in Hr. destruct tr as [|e tr']; [destruct Hr|]. destruct Hr as (_ & _ & Hr). exact (IH _ (H _) _ _ Hr).
+  - cbn [runs] in Hr. destruct tr as [|e tr']; [destruct Hr|]. destruct Hr as (_ & _ & Hr). exact (post_sound _ Q R (k (ev_resp e)) (H _) _ _ Hr).
   - destruct H as [Hbs Hk].
     destruct (runs_par_results_keys _ _ _ _ _ Hr) as [(rs & tk & tpar & Hperm & Hres & _ & Hrk)|(s' & h & b & tb & -> & Hin & Hrb)].
-    + exact (IH rs (Hk rs Hperm Hres) _ _ Hrk).
-    + exact (panics_in_sound Q b (go_panics_in_In Q bs Hbs h b Hin) _ _ Hrb).
+    + exact (post_sound _ Q R (k rs) (Hk rs Hperm Hres) _ _ Hrk).
+    + revert Hbs Hin. clear -post_sound Hrb. induction bs as [|[h0 b0] r IH]; intros Hgo Hin; [destruct Hin|].
+      destruct Hgo as [H1 H2]. destruct Hin as [E|Hin]; [|exact (IH H2 Hin)].
+      injection E as Eh Eb. subst h b. exact (post_sound _ Q (fun _ => True) b0 H1 _ _ Hrb).
 Qed.
 
 Corollary post_no_panic {A} (R : A -> Prop) (p : prog A) :
@@ -113,27 +106,44 @@ Proof.
     revert Hb. induction bs as [|[h b] r IH]; [intros; exact I|]. intros [H1 H2]. split; [apply (panics_in_impl _ Q Q' HQ); exact H1|apply IH; exact H2].
 Qed.
 
-Lemma post_conseq {A} (Q Q' : site -> Prop) (R R' : A -> Prop) (p : prog A) :
-  (forall s, Q s -> Q' s) -> (forall a, R a -> R' a) -> post Q R p -> post Q' R' p.
+Fixpoint post_conseq {A} (Q Q' : site -> Prop) (R R' : A -> Prop) (HQ : forall s, Q s -> Q' s) (HR : forall a, R a -> R' a)
+  (p : prog A) {struct p} : post Q R p -> post Q' R' p.
 Proof.
-  intros HQ HR. induction p as [a0|s|s c k IH|s bs k IH] using prog_ind_k; cbn [post]; intros H; auto.
-  destruct H as [Hb Hk]. split.
-  - clear -Hb HQ. induction bs as [|[h b] r IHb]; [exact I|]. destruct Hb as [H1 H2]. split; [|exact (IHb H2)].
-    exact (panics_in_impl Q Q' HQ b H1).
-  - intros rs Hp Hres. apply IH. apply Hk; assumption.
+  destruct p as [a0|s|s c k|s bs k]; cbn [post]; intros H.
+  - exact (HR _ H).
+  - exact (HQ _ H).
+  - intros r. exact (post_conseq _ Q Q' R R' HQ HR (k r) (H r)).
+  - destruct H as [Hb Hk]. split.
+    + clear Hk. induction bs as [|[h b] r IHb]; [exact I|]. destruct Hb as [H1 H2]. split; [|exact (IHb H2)].
+      exact (post_conseq _ Q Q' (fun _ => True) (fun _ => True) HQ (fun _ t => t) b H1).
+    + intros rs Hp Hres. exact (post_conseq _ Q Q' R R' HQ HR (k rs) (Hk rs Hp Hres)).
 Qed.
 
 (* the syntactic judgements are special cases *)
-Lemma panics_in_post {A} Q (p : prog A) : panics_in Q p -> post Q (fun _ => True) p.
+Fixpoint panics_in_post {A} Q (p : prog A) {struct p} : panics_in Q p -> post Q (fun _ => True) p.
 Proof.
-  induction p as [a0|s|s c k IH|s bs k IH] using prog_ind_k; cbn [panics_in post]; intros H; auto.
-  destruct H as [Hb Hk]. split; [exact Hb|]. intros rs _ _. apply IH. apply Hk.
+  destruct p as [a0|s|s c k|s bs k]; cbn [panics_in post]; intros H.
+  - exact I.
+  - exact H.
+  - intros r. exact (panics_in_post _ Q (k r) (H r)).
+  - destruct H as [Hb Hk]. split.
+    + clear Hk. induction bs as [|[h b] r IHb]; [exact I|]. destruct Hb as [H1 H2]. split; [exact (panics_in_post _ Q b H1)|exact (IHb H2)].
+    + intros rs _ _. exact (panics_in_post _ Q (k rs) (Hk rs)).
+Qed.
+
+Lemma post_branches_of_panics Q (bs : list (host * prog resp)) :
+  (fix go (bs : list (host * prog resp)) : Prop :=
+     match bs with [] => True | (_, b) :: r => panics_in Q b /\ go r end) bs ->
+  (fix go (bs : list (host * prog resp)) : Prop :=
+     match bs with [] => True | (_, b) :: r => post Q (fun _ => True) b /\ go r end) bs.
+Proof.
+  induction bs as [|[h b] r IH]; [intros; exact I|]. intros [H1 H2]. split; [exact (panics_in_post Q b H1)|exact (IH H2)].
 Qed.
 
 Lemma post_panics_rets {A} Q (R : A -> Prop) (p : prog A) : panics_in Q p -> rets R p -> post Q R p.
 Proof.
   induction p as [a0|s|s c k IH|s bs k IH] using prog_ind_k; cbn [panics_in rets post]; intros H1 H2; auto.
-  destruct H1 as [Hb Hk]. split; [exact Hb|]. intros rs _ _. apply IH; [apply Hk|apply H2].
+  destruct H1 as [Hb Hk]. split; [exact (post_branches_of_panics Q bs Hb)|]. intros rs _ _. apply IH; [apply Hk|apply H2].
 Qed.
 
 Lemma post_weaken {A} Q (R R' : A -> Prop) (p : prog A) : (forall a, R a -> R' a) -> post Q R p -> post Q R' p.
